@@ -481,9 +481,27 @@ pub fn ev_win(sh: &mut Shards, x: &H) {
         hints_ok &= it2.size_hint() == (it2.len(), Some(it2.len()));
     }
     let fused2 = it2.next().is_none() && it2.next().is_none();
+    // the other ways of consuming the SAME iterator object: nth(n) then the rest, skip, step_by,
+    // last, count -- for n around the window length (an overridden nth must leave the iterator where
+    // n + 1 calls of next would)
+    let nw1 = h.block_hash_1_numeric_windows().len();
+    let nw2 = h.block_hash_2_index_windows().len();
+    let mut nth: Vec<String> = vec![];
+    for n in [0usize, 1, 5, 6, 7, 8, 13, nw1.saturating_sub(1), nw1, nw1 + 3] {
+        let mut a = h.block_hash_1_numeric_windows();
+        let got = a.nth(n);
+        let mut b = h.block_hash_2_index_windows();
+        let got2 = b.nth(n.min(nw2 + 1));
+        nth.push(format!(
+            "{{\"n\":{},\"n2\":{},\"got\":{},\"rest\":{},\"got2\":{},\"rest2\":{},\"skip\":{},\"step\":{},\"last\":{},\"count\":{}}}",
+            n, n.min(nw2 + 1), jwins(got.into_iter()), jwins(a), jwins(got2.into_iter()), jwins(b),
+            jwins(h.block_hash_1_index_windows().skip(n)), jwins(h.block_hash_1_numeric_windows().step_by(n + 1)),
+            jwins(h.block_hash_2_numeric_windows().skip(n / 2).last().into_iter()), h.block_hash_1_index_windows().skip(n).count()
+        ));
+    }
     sh.emit(&format!(
-        "{{\"ev\":\"win\",\"panics\":0,\"iter1\":{},\"iter2\":{},\"fused\":{},\"hints\":{},\"A\":{},\"w1\":{},\"w2\":{},\"n1\":{},\"n2\":{},\"i1\":{},\"i2\":{},\"lens\":{}}}",
-        jarr_u64(&steps), jarr_u64(&steps2), fused && fused2, hints_ok,
+        "{{\"ev\":\"win\",\"panics\":0,\"nth\":[{}],\"iter1\":{},\"iter2\":{},\"fused\":{},\"hints\":{},\"A\":{},\"w1\":{},\"w2\":{},\"n1\":{},\"n2\":{},\"i1\":{},\"i2\":{},\"lens\":{}}}",
+        nth.join(","), jarr_u64(&steps), jarr_u64(&steps2), fused && fused2, hints_ok,
         jhash(h.log_block_size(), h.block_hash_1(), h.block_hash_2()),
         w(h.block_hash_1_windows()),
         w(h.block_hash_2_windows()),
